@@ -364,3 +364,51 @@ func Gen(r *rand.Rand, o GenOpts) *World {
 	w.Normalize()
 	return w
 }
+
+// PermuteUnordered returns a copy of w in which everything that is semantically unordered in NetworkPolicies
+// (rules of a direction, peers and ports of a rule, policyTypes, except lists)
+// and in admin policies (peers and ports of a rule; NOT the rules, which are ordered) is shuffled.
+func PermuteUnordered(w *World, r *rand.Rand) *World {
+	c := w.Clone()
+	// the inside of a label selector (order of matchExpressions and of their values) is left as written: the
+	// property speaks of rules / peers, and the exposure report echoes selectors in the user's spelling
+	shufSel := func(s *Sel) {}
+	shufRules := func(rs []NPRule) {
+		r.Shuffle(len(rs), func(i, j int) { rs[i], rs[j] = rs[j], rs[i] })
+		for k := range rs {
+			ps := rs[k].Peers
+			r.Shuffle(len(ps), func(i, j int) { ps[i], ps[j] = ps[j], ps[i] })
+			for q := range ps {
+				shufSel(&ps[q].NsSel)
+				shufSel(&ps[q].PodSel)
+				ex := ps[q].Excepts
+				r.Shuffle(len(ex), func(i, j int) { ex[i], ex[j] = ex[j], ex[i] })
+			}
+			po := rs[k].Ports
+			r.Shuffle(len(po), func(i, j int) { po[i], po[j] = po[j], po[i] })
+		}
+	}
+	for i := range c.Netpols {
+		np := &c.Netpols[i]
+		shufSel(&np.PodSel)
+		t := np.Types
+		r.Shuffle(len(t), func(i, j int) { t[i], t[j] = t[j], t[i] })
+		shufRules(np.Ingress)
+		shufRules(np.Egress)
+	}
+	shufA := func(rs []ARule) {
+		for k := range rs {
+			ps := rs[k].Peers
+			r.Shuffle(len(ps), func(i, j int) { ps[i], ps[j] = ps[j], ps[i] })
+			po := rs[k].Ports
+			r.Shuffle(len(po), func(i, j int) { po[i], po[j] = po[j], po[i] })
+		}
+	}
+	for i := range c.Anps {
+		shufA(c.Anps[i].Ingress)
+		shufA(c.Anps[i].Egress)
+	}
+	shufA(c.Banp.Ingress)
+	shufA(c.Banp.Egress)
+	return c
+}
